@@ -33,6 +33,12 @@ HCase(qr, qu, B, h) ==
      qlab |-> QLabNum(qr, qu, B, h), det |-> Det3(RUBNum(qr, qu, B))]
 HCases == { HCase(qr, qu, B, h) : qr \in Quats, qu \in Quats, B \in Bs, h \in Hkls }
 
+(* graph route: beams -> Q -> hkl, lambda * hkl exact (every R, U, B with a few beam pairs)   *)
+GCase(qr, qu, B, b1, b2) ==
+    [kind |-> "graph", qr |-> qr, qu |-> qu, B |-> B, b1 |-> b1.v, n1 |-> b1.n, b2 |-> b2.v, n2 |-> b2.n,
+     x |-> HklTimesLambda(qr, qu, B, b1, b2), qdir |-> QDir(b1, b2)]
+GCases == { GCase(qr, qu, B, b1, b2) : qr \in Quats, qu \in Quats, B \in Bs, b1 \in GInc, b2 \in GSc }
+
 Q6 == { <<1, 0, 0, 0>>, <<1, 1, 0, 0>>, <<1, 1, 1, 1>>, <<2, 1, 0, 0>>, <<1, 1, 1, 0>>, <<0, 1, -1, 2>> }
 Q12 == Q6 \cup { <<1, 0, 0, 1>>, <<0, 0, 1, 0>>, <<2, -1, 1, 0>>, <<1, 2, 2, 0>>, <<1, -1, 1, -1>>, <<3, 1, 1, 1>> }
 Seeds_quick == { <<1, 0, 0>>, <<1, 2, 2>>, <<0, 3, 4>> }
@@ -47,6 +53,6 @@ C2 == -1..1
 H_quick == { <<1, 0, 0>>, <<0, 1, 0>>, <<0, 0, 1>>, <<1, 1, 1>>, <<-1, 2, 0>>, <<2, -1, 3>>, <<0, 0, 0>> }
 H_thorough == { h \in C2 \X C2 \X C2 : TRUE } \cup { <<2, -1, 3>>, <<-3, 5, 4>> }
 
-ASSUME ndJsonSerialize(IOEnv.OUT_FILE, SetToSeq(QCases) \o SetToSeq(HCases))
-ASSUME PrintT(<<"CASES", Cardinality(QCases), Cardinality(HCases)>>)
+ASSUME ndJsonSerialize(IOEnv.OUT_FILE, SetToSeq(QCases) \o SetToSeq(HCases) \o SetToSeq(GCases))
+ASSUME PrintT(<<"CASES", Cardinality(QCases), Cardinality(HCases), Cardinality(GCases)>>)
 =============================================================================
